@@ -878,25 +878,25 @@ def stage_roundtrip_sql(ctx, rng, gverif):
 # ---------------------------------------------------------------- witnesses of the repaired defects
 REGRESSIONS = [
     # (finding it was the witness of, statement, expected cell or None for an error)
-    ("rescale-narrows-before-downscale (fixed PENDING-1)",
+    ("rescale-narrows-before-downscale (fixed 770f0ed44)",
      "select cast(cast('99999999999999.99999' as decimal(30,5)) as decimal(18,0))", "D100000000000000/18/0"),
-    ("rescale-narrows-before-downscale (fixed PENDING-1)",
+    ("rescale-narrows-before-downscale (fixed 770f0ed44)",
      "select cast(cast('-100000000000000000.00001' as decimal(30,5)) as decimal(18,0))", "D-100000000000000000/18/0"),
-    ("rescale-narrows-before-downscale (fixed PENDING-1), result does not fit",
+    ("rescale-narrows-before-downscale (fixed 770f0ed44), result does not fit",
      "select cast(cast('12345678901234567890.5' as decimal(30,5)) as decimal(18,0))", None),
-    ("rescale-factor-exceeds-target-primitive (fixed PENDING-1)",
+    ("rescale-factor-exceeds-target-primitive (fixed 770f0ed44)",
      "select cast(cast('1.5' as decimal(38,20)) as decimal(18,0))", "D2/18/0"),
-    ("rescale-factor-exceeds-target-primitive (fixed PENDING-1)",
+    ("rescale-factor-exceeds-target-primitive (fixed 770f0ed44)",
      "select cast(cast('-0.5' as decimal(38,20)) as decimal(18,0))", "D-1/18/0"),
-    ("rescale-factor-exceeds-target-primitive (fixed PENDING-1)",
+    ("rescale-factor-exceeds-target-primitive (fixed 770f0ed44)",
      "select cast(cast('0.49999999999999999999' as decimal(38,20)) as decimal(18,0))", "D0/18/0"),
-    ("float-to-decimal product in the source float format (fixed PENDING-1)",
+    ("float-to-decimal product in the source float format (fixed 770f0ed44)",
      "select cast(cast('9.5' as float) as decimal(18,9))", "D9500000000/18/9"),
-    ("float-to-decimal product in the source float format (fixed PENDING-1)",
+    ("float-to-decimal product in the source float format (fixed 770f0ed44)",
      "select cast(cast('0.1' as float) as decimal(18,9))", "D100000001/18/9"),
-    ("round(decimal) goes through DecimalToDecimal<D, D> (touched by PENDING-1)",
+    ("round(decimal) goes through DecimalToDecimal<D, D> (touched by 770f0ed44)",
      "select round(cast('1.25' as decimal(5,2)), 1)", "D13/5/1"),
-    ("round(decimal) goes through DecimalToDecimal<D, D> (touched by PENDING-1)",
+    ("round(decimal) goes through DecimalToDecimal<D, D> (touched by 770f0ed44)",
      "select round(cast('-12345678901234567890.5' as decimal(30,5)))", "D-12345678901234567891/30/0"),
 ]
 
